@@ -573,7 +573,7 @@ type c14Gen struct {
 	next int
 }
 
-func (g *c14Gen) id() int { g.next++; return g.next }
+func (g *c14Gen) id() int             { g.next++; return g.next }
 func (g *c14Gen) el(vu int64) c14Elem { return c14Elem{ID: g.id(), VU: vu} }
 
 // every method of the API in the variants whose behaviour differs
